@@ -1,5 +1,5 @@
 From Verif Require Import Values Counter.
-From Coq Require Import Qround Qfield Morphisms Setoid.
+From Coq Require Import Qround Qfield Morphisms Setoid Permutation.
 Open Scope Q_scope.
 
 Lemma Qfloor_unique x n : inject_Z n <= x -> x < inject_Z (n + 1) -> Qfloor x = n.
@@ -220,4 +220,76 @@ Proof.
     + apply Qeq_bool_iff. rewrite <- H2. unfold start_acc. destruct (k_restored k); reflexivity.
     + eapply cagree_monitor; [exact I| |exact H2|exact H3].
       simpl. unfold start_acc. destruct (k_restored k); reflexivity.
+Qed.
+
+(* ---- algebraic corollaries of the reduction theorem (added in the last session) ---- *)
+
+(* 'reset' restores exactly what start-up without a persisted value produces *)
+Theorem counter_reset_is_start c out : cstep c out Reset = (Ok (cstart c None), cstart c None).
+Proof. reflexivity. Qed.
+
+(* inc by a then dec by the same a restores every already-reduced output *)
+Theorem counter_inc_dec_cancel c out a :
+  mod_ok (cmod c) -> out == setmod (cmod c) out ->
+  cfinal c out [Inc a; Dec a] == out /\ cfinal c out [Dec a; Inc a] == out.
+Proof.
+  intros Hm H. split.
+  - rewrite (counter_reduction_commutes c [Inc a; Dec a] out out Hm H). simpl.
+    rewrite H at 2. apply setmod_comp. ring.
+  - rewrite (counter_reduction_commutes c [Dec a; Inc a] out out Hm H). simpl.
+    rewrite H at 2. apply setmod_comp. ring.
+Qed.
+
+(* every output produced under a positive modulo is a fixed point of the reduction,
+   i.e. the hypothesis of counter_inc_dec_cancel holds on every reachable output *)
+Theorem counter_output_reduced c mm v :
+  cmod c = Some mm -> ~ mm == 0 -> setmod (cmod c) v == setmod (cmod c) (setmod (cmod c) v).
+Proof. intros E Hm. rewrite E. simpl. symmetry. now apply pymod_idem. Qed.
+
+(* the order of a put-free, reset-free batch of inc/dec events does not matter *)
+Definition delta (e : cev) : Q :=
+  match e with Inc a => dflt1 a | Dec a => - dflt1 a | _ => 0 end.
+Definition incdec (e : cev) : bool := match e with Inc _ | Dec _ => true | _ => false end.
+
+Lemma acc_incdec init evs : forallb incdec evs = true -> forall acc,
+  fold_left (acc_step init) evs acc == acc + fold_right (fun e s => delta e + s) 0 evs.
+Proof.
+  induction evs as [|e r IH]; intros Hf acc; simpl in *.
+  - ring.
+  - apply andb_prop in Hf as [He Hr]. rewrite (IH Hr).
+    destruct e as [a|a|v| |]; simpl in *; try discriminate; ring.
+Qed.
+
+Theorem counter_incdec_sum c evs out acc :
+  mod_ok (cmod c) -> out == setmod (cmod c) acc -> forallb incdec evs = true ->
+  cfinal c out evs == setmod (cmod c) (acc + fold_right (fun e s => delta e + s) 0 evs).
+Proof.
+  intros Hm H Hf. rewrite (counter_reduction_commutes c evs out acc Hm H).
+  apply setmod_comp. now apply acc_incdec.
+Qed.
+
+Lemma delta_sum_perm evs evs' : Permutation evs evs' ->
+  fold_right (fun e s => delta e + s) 0 evs == fold_right (fun e s => delta e + s) 0 evs'.
+Proof.
+  induction 1 as [|x l l' _ IH|x y l|l l' l'' _ IH1 _ IH2]; simpl.
+  - reflexivity.
+  - now rewrite IH.
+  - ring.
+  - now rewrite IH1.
+Qed.
+
+Lemma incdec_perm evs evs' : Permutation evs evs' -> forallb incdec evs = true -> forallb incdec evs' = true.
+Proof.
+  intros P H. rewrite forallb_forall in *. intros x Hx. apply H.
+  eapply Permutation_in; [symmetry; exact P|exact Hx].
+Qed.
+
+Theorem counter_incdec_order_irrelevant c evs evs' out acc :
+  mod_ok (cmod c) -> out == setmod (cmod c) acc -> forallb incdec evs = true ->
+  Permutation evs evs' -> cfinal c out evs == cfinal c out evs'.
+Proof.
+  intros Hm H Hf P.
+  rewrite (counter_incdec_sum c evs out acc Hm H Hf).
+  rewrite (counter_incdec_sum c evs' out acc Hm H (incdec_perm _ _ P Hf)).
+  apply setmod_comp. now rewrite (delta_sum_perm _ _ P).
 Qed.
